@@ -329,6 +329,9 @@ def generate(seed, tier):
     n_items = len(world['cells']) + len(world['names'])
     if kind == 'dict':
         s['order'] = srng.perm(n_items)
+        if len(world['books']) == 1 and len(world['books'][0]) == 1 and \
+                srng.chance(.4):
+            s['placement'] = dict(pl, bare=True)   # keys 'A1', 'RATE'
     else:
         s.update(mode=srng.pick(['loads', 'loads', 'root']),
                  book_order=srng.perm(len(world['books'])),
